@@ -80,6 +80,11 @@ where
                 // the kernel's task root catches the unwind again to record it; here we only need
                 // the value (or the payload) for join()
                 let r = std::panic::catch_unwind(std::panic::AssertUnwindSafe(f));
+                // the closure has returned and its captures are dropped, but the thread has not
+                // exited yet (join() would still wait): others may run in between
+                if r.is_ok() {
+                    kernel::post_effect();
+                }
                 match r {
                     Ok(v) => {
                         *slot2.lock().unwrap() = Some(Ok(v));
